@@ -149,8 +149,11 @@ class Ep:
         if new not in self.state_times:
             self.state_times[new] = self.world.now()
         if old is not None and _STATE_ORDER[new] < _STATE_ORDER[old]:
-            self.run.violate("%s.forward-only" % self.world.PROP, "%s->%s" % (_STATE_NAME[old], _STATE_NAME[new]),
-                             "%s went backwards" % self.name)
+            if self.world.PROP == "C05":
+                self.run.violate("C05.forward-only", "%s->%s" % (_STATE_NAME[old], _STATE_NAME[new]),
+                                 "%s went backwards" % self.name)
+            else:
+                self.run.probe("state-went-backwards(C05 territory)")
 
     def on_write(self, data):
         """Observer on transport.write(): split HTTP handshake from frames."""
@@ -386,8 +389,7 @@ class WsWorld:
             self.reactor.escaped = None
             for where, exc in esc:
                 self.run.log("escaped", "reactor", where, type(exc).__name__)
-                self.run.violate("%s.no-escape" % self.PROP, "%s:%s:%s" % (where, type(exc).__name__, exc_site(exc)),
-                                 repr(exc))
+                self.on_escape(None, where, exc)
         for ep in self.eps:
             while ep.t.escaped:
                 where, exc = ep.t.escaped.pop(0)
@@ -395,7 +397,7 @@ class WsWorld:
 
     def on_escape(self, ep, where, exc):
         self.run.violate("%s.no-escape" % self.PROP, "%s:%s:%s" % (where, type(exc).__name__, exc_site(exc)),
-                         "%s: %r" % (ep.name, exc))
+                         "%s: %r" % (ep.name if ep is not None else "loop", exc))
 
     def quiescent(self):
         if self.link_actions():
@@ -407,7 +409,7 @@ class WsWorld:
         self.draining = True
         t_end = self.now() + self.DRAIN_HORIZON
         guard = 0
-        while guard < 10000:
+        while guard < 60000:
             guard += 1
             progressed = False
             for ep in self.eps:
@@ -445,7 +447,7 @@ class WsWorld:
                 break
             self.fw.fire_next(self)
             self.check_step()
-        if guard >= 10000:
+        if guard >= 60000:
             raise HarnessError("drain did not converge")
 
     def drain_hook(self):
